@@ -73,6 +73,9 @@ def check_surface(case, ctx):
     ctx.check(_eq_pts(list(m.ctrlpts), stored), "manager-layout", "points set through SurfaceManager differ from the flat net")
     iu, iv = case["u"] % nu, case["v"] % nv
     ctx.check(_eq_pts([m.get_ctrlpt(iu, iv)], [stored[iv + nv * iu]]), "manager-get", "get_ctrlpt(%d,%d) = %r" % (iu, iv, m.get_ctrlpt(iu, iv)))
+    for (cu, cv) in ((0, 0), (nu - 1, nv - 1), (nu - 1, 0), (0, nv - 1)):
+        gp = m.get_ctrlpt(cu, cv)
+        ctx.check(gp is not None and _eq_pts([gp], [stored[cv + nv * cu]]), "manager-get", "get_ctrlpt(%d,%d) = %r, the net has %r there" % (cu, cv, gp, stored[cv + nv * cu]))
     o2 = build.make(d)
     o2.set_ctrlpts(list(m.ctrlpts), nu, nv)
     ctx.check(build.snapshot(o2)["pts"] == build.snapshot(obj)["pts"], "manager-roundtrip", "surface built from the manager's points differs")
@@ -181,6 +184,8 @@ def check_volume(case, ctx):
     i = case["i"]
     iu, iv, iw = i % nu, (i // 7) % nv, (i // 53) % nw
     ctx.check(_eq_pts([m.get_ctrlpt(iu, iv, iw)], [stored[flat(iu, iv, iw)]]), "manager-get", "get_ctrlpt(%d,%d,%d)" % (iu, iv, iw))
+    gp = m.get_ctrlpt(nu - 1, nv - 1, nw - 1)
+    ctx.check(gp is not None and _eq_pts([gp], [stored[-1]]), "manager-get", "get_ctrlpt of the last index = %r, the net ends with %r" % (gp, stored[-1]))
     c = control_points.CurveManager(nu)
     ctx.check([c.find_index(k) for k in range(nu)] == list(range(nu)), "manager-index", "CurveManager.find_index is not the identity")
     # extraction
